@@ -17,6 +17,7 @@ Op(name, A) == l <= Ix[x].e /\ E.e = name /\ A /\ PostOK /\ l' = l + 1 /\ UNCHAN
 TNext == \/ Op("CtorPtr", CtorPtr(E.o, E.s)) \/ Op("CtorAdopt", CtorAdopt(E.o, E.s)) \/ Op("CtorList", CtorList(E.o, E.s))
          \/ Op("CtorSized", CtorSized(E.o, E.n)) \/ Op("CtorFilled", CtorFilled(E.o, E.n, E.v)) \/ Op("CtorDefault", CtorDefault(E.o))
          \/ Op("Resize", Resize(E.o, E.n)) \/ Op("ResizeFill", ResizeFill(E.o, E.n, E.v)) \/ Op("Write", Write(E.o, E.i, E.v))
+         \/ Op("ResizeFillFrom", ResizeFillFrom(E.o, E.n, E.i))
          \/ Op("CopyConstruct", CopyConstruct(E.o)) \/ Op("CopyAssign", CopyAssign(E.o))
          \/ Op("MoveConstruct", MoveConstruct(E.o)) \/ Op("MoveAssign", MoveAssign(E.o))
          \/ Op("Swap", Swap(E.o)) \/ Op("Destroy", Destroy(E.o))
